@@ -16,17 +16,17 @@ import (
 // ---- statistics dumped for the driver -------------------------------------
 
 type propStats struct {
-	Evaluations   int               `json:"evaluations"`
-	Nontrivial    int               `json:"nontrivial"`
-	FPs           []string          `json:"fps"`
-	Classes       map[string]int    `json:"classes"`
-	Samples       []interface{}     `json:"samples"`
-	Inconclusive  int               `json:"inconclusive"`
-	ExcludedKnown map[string]int    `json:"excluded_known"`
-	SkippedOps    int               `json:"skipped_ops"`
-	Steps         int               `json:"steps"`
-	Rule          string            `json:"rule"`
-	Exhaustive    bool              `json:"exhaustive"`
+	Evaluations   int                    `json:"evaluations"`
+	Nontrivial    int                    `json:"nontrivial"`
+	FPs           []string               `json:"fps"`
+	Classes       map[string]int         `json:"classes"`
+	Samples       []interface{}          `json:"samples"`
+	Inconclusive  int                    `json:"inconclusive"`
+	ExcludedKnown map[string]int         `json:"excluded_known"`
+	SkippedOps    int                    `json:"skipped_ops"`
+	Steps         int                    `json:"steps"`
+	Rule          string                 `json:"rule"`
+	Exhaustive    bool                   `json:"exhaustive"`
 	Extra         map[string]interface{} `json:"extra,omitempty"`
 
 	fps map[uint64]struct{}
@@ -186,7 +186,9 @@ type Violation struct {
 	Step   int    `json:"step"`
 }
 
-func (v *Violation) Error() string { return fmt.Sprintf("%s [%s] step %d: %s", v.Prop, v.Sig, v.Step, v.Detail) }
+func (v *Violation) Error() string {
+	return fmt.Sprintf("%s [%s] step %d: %s", v.Prop, v.Sig, v.Step, v.Detail)
+}
 
 func violation(prop, sig, format string, args ...interface{}) *Violation {
 	return &Violation{Prop: prop, Sig: prop + ":" + sig, Detail: fmt.Sprintf(format, args...)}
